@@ -270,6 +270,47 @@ fh!(c04_fdw_split4, 14, split_buffered::<4>());
 fh!(c04_fdw_split0, 14, split_buffered::<0>());
 fh!(c04_fdw_split12, 14, split_buffered::<12>());
 
+/// sharp, cheap instances of the vectored-write rule on the 8-byte data half (lengths concrete,
+/// bytes symbolic): the TOTAL decides; a refused vectored write leaves nothing behind even when a
+/// prefix of its slices would fit.
+pub fn vectored_total<const A: usize, const B: usize>() {
+    dev_reset();
+    let mut mem = fresh_mem();
+    let d: [u8; 8] = kani::any();
+    let e: [u8; 8] = kani::any();
+    {
+        let region: &mut [u8] = unsafe { std::slice::from_raw_parts_mut(mem.as_mut_ptr().add(LEFT), CAP) };
+        let mut w1 = FuseDevWriter::<()>::new(dev_fd(), region).unwrap();
+        let mut w2 = w1.split_at(4).unwrap();
+        let iov = [IoSlice::new(&d[..A]), IoSlice::new(&e[..B])];
+        let r = w2.write_vectored(&iov);
+        if A + B <= 8 {
+            assert!(matches!(r, Ok(x) if x == A + B) && w2.bytes_written() == A + B, "[C04] a vectored write that fits is accepted whole");
+        } else {
+            assert!(r.is_err(), "[C04] a vectored write whose total exceeds the remaining space fails");
+            assert!(w2.bytes_written() == 0 && w2.available_bytes() == 8, "[C04] a failed vectored write writes nothing; counters add up");
+        }
+        std::mem::forget(r);
+        std::mem::forget(w2);
+        std::mem::forget(w1);
+    }
+    let p: usize = kani::any();
+    kani::assume(p < 8);
+    let got = mem[LEFT + 4 + p];
+    if A + B <= 8 {
+        let want = if p < A { d[p] } else if p < A + B { e[p - A] } else { 0 };
+        assert!(got == want, "[C04] data bytes land after the split offset: the concatenation written, nothing skipped or repeated");
+    } else {
+        assert!(got == 0, "[C04] bytes not written stay untouched");
+    }
+    assert!(canaries_ok(&mem), "[C04] nothing outside the supplied buffer is touched");
+    kani::cover!(true, "reached");
+}
+fh!(c04_fdw_vectored_5_5, 12, vectored_total::<5, 5>());
+fh!(c04_fdw_vectored_3_5, 12, vectored_total::<3, 5>());
+fh!(c04_fdw_vectored_8_1, 12, vectored_total::<8, 1>());
+fh!(c04_fdw_vectored_0_8, 12, vectored_total::<0, 8>());
+
 /// split beyond the capacity is refused and changes nothing; split after a buffered write keeps
 /// the written bytes in the right halves
 pub fn split_edges() {
